@@ -467,6 +467,10 @@ where
         return Err("itp: k_2 must be in (1, 1 + golden_ratio)".to_owned());
     }
 
+    if !n_0.is_sign_positive() {
+        return Err("itp: n_0 must be positive".to_owned());
+    }
+
     let mut left = initial.0;
     let mut right = initial.1;
     let mut f_left = f(left);
@@ -476,10 +480,19 @@ where
         return Err("itp: initial guesses must bracket root".to_owned());
     }
 
-    if f_left.is_sign_positive() {
+    if left > right {
         std::mem::swap(&mut left, &mut right);
         std::mem::swap(&mut f_left, &mut f_right);
     }
+
+    // The method assumes f(left) < 0 < f(right), flip the function otherwise
+    let flip = if f_left.is_sign_positive() {
+        -N::one()
+    } else {
+        N::one()
+    };
+    f_left *= flip;
+    f_right *= flip;
 
     let two = N::from_i32(2).unwrap();
 
@@ -491,7 +504,7 @@ where
         let x_half = (left + right) / two;
         let r = tol * two.powf(n_max + n_0 - N::from_i32(j).unwrap()) - (right - left) / two;
         let x_f = (f_right * left - f_left * right) / (f_right - f_left);
-        let sigma = (x_half - x_f) / (x_half - x_f).abs();
+        let sigma = (x_half - x_f).signum();
         let delta = k_1 * (right - left).powf(k_2);
         let x_t = if delta <= (x_half - x_f).abs() {
             x_f + sigma * delta
@@ -503,7 +516,10 @@ where
         } else {
             x_half - sigma * r
         };
-        let f_itp = f(x_itp);
+        let f_itp = flip * f(x_itp);
+        if f_itp.is_zero() {
+            return Ok(x_itp);
+        }
         if f_itp.is_sign_positive() {
             right = x_itp;
             f_right = f_itp;
